@@ -124,6 +124,7 @@ type Entry struct {
 	Len   int    `json:"len"`
 	Err   string `json:"err,omitempty"`
 	Lstat string `json:"lstat,omitempty"`
+	Pieces [][3]int64 `json:"pieces,omitempty"` // content as slices (seed, offset, length) of the blob patterns
 }
 
 type Result struct {
@@ -216,6 +217,65 @@ func (r *runner) content(e *Entry, data []byte, err error) {
 	} else {
 		e.Blob = -1
 	}
+	e.Pieces = r.decompose(data)
+}
+
+// decompose content into slices of the known blob patterns (seed 0 = zero bytes); bytes that
+// match nothing are reported as pieces with seed -1 and the byte value as offset
+func (r *runner) decompose(data []byte) [][3]int64 {
+	out := [][3]int64{}
+	i := 0
+	prevB, prevEnd := -1, 0
+	for i < len(data) {
+		bestLen, bestB, bestO := 0, -1, 0
+		try := func(b, o int) {
+			if b < 0 || b >= len(r.blobs) || o < 0 {
+				return
+			}
+			p := r.blobs[b]
+			n := 0
+			for o+n < len(p) && i+n < len(data) && p[o+n] == data[i+n] {
+				n++
+			}
+			if n > bestLen {
+				bestLen, bestB, bestO = n, b, o
+			}
+		}
+		if prevB >= 0 {
+			try(prevB, prevEnd)
+		}
+		for b := range r.blobs {
+			try(b, 0)
+			try(b, i)
+		}
+		if bestLen < 8 && len(data)-i >= 8 {
+			for b := range r.blobs {
+				if k := bytes.Index(r.blobs[b], data[i:i+8]); k >= 0 {
+					try(b, k)
+				}
+			}
+		}
+		z := 0
+		for i+z < len(data) && data[i+z] == 0 {
+			z++
+		}
+		if z >= bestLen && z > 0 {
+			out = append(out, [3]int64{0, 0, int64(z)})
+			i += z
+			prevB = -1
+			continue
+		}
+		if bestLen == 0 {
+			out = append(out, [3]int64{-1, int64(data[i]), 1})
+			i++
+			prevB = -1
+			continue
+		}
+		out = append(out, [3]int64{int64(r.h.Blobs[bestB].Seed), int64(bestO), int64(bestLen)})
+		i += bestLen
+		prevB, prevEnd = bestB, bestO+bestLen
+	}
+	return out
 }
 
 // walk the visible tree from the root: Readdir, Stat, Lstat, Readlink and full reads
